@@ -218,3 +218,13 @@ def test_known_C16_inplace_embedded_undecorated():
     assert T().transform(Lark(g, parser='lalr').parse('x')) == ('start', (Token('X', 'x'),))
     with pytest.raises(TypeError):
         Lark(g, parser='lalr', transformer=T()).parse('x')
+
+
+def test_fixed_C10_shared_grammar_object_invert():                  # see known_findings.json (shared Grammar object)
+    from lark.load_grammar import load_grammar
+    g, _ = load_grammar('start: a | b\na.2: X\nb.1: X\nX: "x"\n', '<s>', [], False)
+    p1 = Lark(g, parser='earley')
+    before = p1.parse('x')
+    Lark(g, parser='earley', priority='invert')
+    assert p1.parse('x') == before
+    assert Lark(g, parser='earley').parse('x') == before
